@@ -377,21 +377,27 @@ def sharing(tier, seed):
                              f"after g2 = g.copy(), {mname} on the {'original' if direction == 'original_mutated' else 'copy'} changed what "
                              f"the other grid reports: {d[:6]}", V_COPY,
                              {"mesh": mesh["name"], "grid_prepared": prepared, "mutator": mname, "direction": direction}, d[:8])
-        # UxDataArray.copy(deep=True) relies on Grid.copy
-        cases += 1
-        g = build(mesh, "derived")
-        da = ux.UxDataArray(np.arange(mesh["n_face"], dtype=float), dims=["n_face"], uxgrid=g, name="v")
-        da2 = da.copy(deep=True)
-        before = report(da.uxgrid)
-        try:
-            da2.uxgrid.construct_face_centers("welzl")
-            da2.uxgrid.node_lon = xr.DataArray(da2.uxgrid.node_lon.values + 0.5, dims=["n_node"])
-        except Exception:
-            pass
-        d = report_diff(before, report(da.uxgrid))
-        if d:
-            fail("copy_shares_state:UxDataArray.copy(deep=True)", "mutating the grid of a deep copy of a UxDataArray changed the "
-                 f"original's grid: {d[:6]}", V_COPY, {"mesh": mesh["name"]}, d[:8])
+        # UxDataArray.copy(deep=True) relies on Grid.copy (also when replacement data are supplied: deep defaults to True)
+        for how in ("deep=True", "data=...", "deep=True,data=..."):
+            cases += 1
+            g = build(mesh, "derived")
+            da = ux.UxDataArray(np.arange(mesh["n_face"], dtype=float), dims=["n_face"], uxgrid=g, name="v")
+            kw = {}
+            if "deep" in how:
+                kw["deep"] = True
+            if "data" in how:
+                kw["data"] = np.arange(mesh["n_face"], dtype=float) * 2.0
+            da2 = da.copy(**kw)
+            before = report(da.uxgrid)
+            try:
+                da2.uxgrid.construct_face_centers("welzl")
+                da2.uxgrid.node_lon = xr.DataArray(da2.uxgrid.node_lon.values + 0.5, dims=["n_node"])
+            except Exception:
+                pass
+            d = report_diff(before, report(da.uxgrid))
+            if d:
+                fail(f"copy_shares_state:UxDataArray.copy({how})", "mutating the grid of a deep copy of a UxDataArray changed the "
+                     f"original's grid: {d[:6]}", V_COPY, {"mesh": mesh["name"], "copy": f"UxDataArray.copy({how})"}, d[:8])
 
     # ================================================================ C. exports
     V_EXP = "datasets and geometry objects returned by export calls can be modified by the caller without changing what the Grid reports"
